@@ -519,10 +519,7 @@ func corrC08(r *Run) {
 		ln := r.Rng.Intn(48)
 		if i%25 == 7 {
 			// long texts: more than 255 / 256 / 65535 octets of packed output (index and length arithmetic of the packer)
-			ln = r.Rng.Pick([]int{290, 293, 300, 512, 585, 1000, 2400, 80000})
-			if r.Quick && ln > 3000 {
-				ln = 600
-			}
+			ln = r.Rng.Pick([]int{290, 293, 300, 512, 585, 1000, 2400})
 		} else if r.Rng.Intn(10) == 0 {
 			ln = 120 + r.Rng.Intn(60)
 		}
